@@ -341,13 +341,19 @@ def shard_small_classical(acc, shard, nshards, max_len, max_size):
 
 
 def shard_pairs_light(acc, shard, nshards, pairs_of_lengths):
-    i = 0
+    i = done = 0
     for a, b in pairs_of_lengths:
         for pp in ref.perms(a):
             for q in ref.perms(b):
                 if i % nshards == shard:
                     acc.record("pair_light", check_pair_light, [list(pp), list(q)])
+                    done += 1
+                    if done % 20000 == 0:
+                        # the library keeps every class ever created (equal bases denote the same
+                        # object): millions of them would not fit in memory
+                        Av.clear_cache()
                 i += 1
+    Av.clear_cache()
 
 
 def pair_light_cases():
@@ -400,7 +406,7 @@ FUZZ = {"basis": ("basis", basis_cases), "from_string": ("from_string", string_c
 
 def run(acc, tier):
     engine.pmap(acc, shard_identity, extra=((50, 1500, 5000) if tier == "quick" else (50, 1500, 5000, 45000),))
-    engine.pmap(acc, shard_pairs_light, extra=(((2, 5), (3, 5), (4, 5), (3, 6), (4, 6), (5, 6), (6, 7)) if tier == "quick" else ((3, 5), (4, 5), (3, 6), (4, 6), (5, 6), (3, 7), (4, 7), (5, 7), (6, 7), (7, 8)),))
+    engine.pmap(acc, shard_pairs_light, extra=(((2, 5), (3, 5), (4, 5), (3, 6), (4, 6), (5, 6), (6, 7)) if tier == "quick" else ((3, 5), (4, 5), (3, 6), (4, 6), (5, 6), (3, 7), (4, 7), (5, 7), (6, 7), (3, 8), (4, 8)),))
     engine.pmap(acc, shard_pairs_random, extra=((6000,) if tier == "quick" else (100000,)))
     if tier == "quick":
         engine.pmap(acc, shard_small_classical, extra=(3, 2))
